@@ -38,6 +38,22 @@ TEMPLATES4 = [
 TOK4 = ["C", "F", "[C@]", "[C@@H]", "(", ")", "1", "2", "/C", "\\C", "=C", "/1", "N"]
 
 
+def generated_centres(max_items=3):
+    """every arrangement of up to three substituent items after a chiral centre: branches, digits closing rings opened
+    earlier, digits opening rings closed later - in every written order (the parser accepts digits after branches)"""
+    import itertools
+    pool = ["(F)", "(Cl)", "1", "2", "3", "4"]
+    out = []
+    for m in range(1, max_items + 1):
+        for seq in itertools.permutations(pool, m):
+            items = "".join(seq)
+            tail = "CC" + ("3" if "3" in seq else "") + "C" + ("4" if "4" in seq else "") + "C" + \
+                   ("1" if "1" not in seq else "") + "C" + ("2" if "2" not in seq else "")
+            for tag in ("[C@]", "[C@@H]"):
+                out.append("N1CC2CC" + tag + items + tail)
+    return out
+
+
 def make_judge():
     def j(res):
         if res["status"] != "ok":
@@ -62,6 +78,9 @@ def run(rep, tier, seed, budget):
     plan = []
     for i, t in enumerate(TEMPLATES4):
         plan.append(("stereo template %d" % i, lambda t=t: make_slots("s", t), {"template": t}))
+    gen = generated_centres(2 if quick else 3)
+    plan.append(("generated centres: every ordered arrangement of up to %d items (branches, closing digits, opening digits) after a chiral atom, %d spellings" % (2 if quick else 3, len(gen)),
+                 lambda: make_slots("s", [gen]), {"generator": "N1CC2CC + [C@]/[C@@H] + permutation of <= %d of {(F),(Cl),1,2,3,4} + closing tail" % (2 if quick else 3), "spellings": len(gen)}))
     for n in ((2, 3, 4) if quick else (2, 3, 4, 5)):
         plan.append(("uniform N=%d tokens with stereo marks" % n, lambda n=n: make_slots("s", [TOK4] * n), {"tokens": TOK4, "N_tokens": n}))
     for name, mk, bounds in plan:
@@ -73,5 +92,5 @@ def run(rep, tier, seed, budget):
     rep.assumptions += ["handedness judged from written neighbour order (preceding atom, implicit H, ring closures by digit position, branches, chain) read by O-READ from input and output; tags must agree iff the permutation is even",
                         "'/' and '\\' compared per bond and, for ring-closure bonds, per end",
                         "inputs: the listed templates (every combination of slot alternatives) and uniform token strings; other spellings are outside the claim",
-                        "the unit-level harness on _should_invert_chirality described in DESIGN.md was not built; the templates cover atoms with up to three ring closures plus branches"]
+                        "the unit-level harness on _should_invert_chirality described in the first design was replaced by a generator that writes a chiral centre with every ordered arrangement of up to three items (branches, ring-closing digits, ring-opening digits) and sends each spelling through the end-to-end oracle"]
     return ctx.stubs
